@@ -308,3 +308,21 @@ theorem trivial_delete_applies (S : Schema) (hst : TextStable S) (ty0 : TypeId) 
   · simp at htr
 
 end PM
+
+namespace PM
+
+/-- **the reduction for the general case** (`replaceKids_undoG` as a statement about `Step.apply`): a replace step
+    applies to the document `K'` as soon as a valid document `K` in normal form exists whose cut `[f, t)` is the step's
+    slice, which has the same content as `K'` in front of `f` (`LeftRel`) and whose content behind `t` is that of `K'`
+    behind `t'`, with `compatible_content` ancestors (`RightRel`) -/
+theorem replace_applies_of_result (S : Schema) (ty0 : TypeId) (a0 : Attrs) (m0 : Marks) (K K' : List Node)
+    (f t t' : Nat) (sl : Slice)
+    (hvc : S.validContent ty0 K = true) (hv : S.checkKids K = true) (hn : fnorm K = true)
+    (hn' : fnorm K' = true) (hft : f ≤ t) (ht : t ≤ fsize K) (hft' : f ≤ t')
+    (hs : sliceKids K f t = .ok sl) (hL : LeftRel K' K f) (hR : RightRel S K' t' K t) :
+    ∃ doc', S.apply (.replace f t' sl false) (.elem ty0 a0 m0 K') = .ok doc' := by
+  obtain ⟨X, hX⟩ := replaceKids_undoG S ty0 K K' f t t' sl hvc hv hn hn' hft ht hft' hs hL hR
+  exact ⟨.elem ty0 a0 m0 X, by
+    simp only [Schema.apply, Bool.false_eq_true, if_false, Schema.fromReplace, Schema.replace, hX, Except.map]⟩
+
+end PM
